@@ -440,16 +440,14 @@ func (m *Muxer) Start() error {
 func (m *Muxer) Close() {
 	m.mutex.Lock()
 	m.closed = true
+	for _, stream := range m.streams {
+		stream.close()
+	}
 	m.mutex.Unlock()
 
 	verifYield("close.afterUnlock")
 	m.cond.Broadcast()
 	verifYield("close.afterBroadcast")
-
-	for _, stream := range m.streams {
-		verifYield("close.beforeStreamClose")
-		stream.close()
-	}
 }
 
 // WriteAV1 writes an AV1 temporal unit.
